@@ -10,7 +10,10 @@ func init() {
 		},
 		Stage{Engine: "snapcheck", Mode: "rw", BatchesQ: 16, BatchesT: 32, Par: 16, TimeoutQ: 900, TimeoutT: 3600},
 		Stage{Engine: "snapcheck", Mode: "flip", BatchesQ: 16, BatchesT: 32, Par: 16, TimeoutQ: 900, TimeoutT: 3600},
-		Stage{Engine: "snapcheck", Mode: "validator", BatchesQ: 16, BatchesT: 32, Par: 16, TimeoutQ: 900, TimeoutT: 3600})
+		Stage{Engine: "snapcheck", Mode: "validator", BatchesQ: 16, BatchesT: 32, Par: 16, TimeoutQ: 900, TimeoutT: 3600},
+		// the receiver side of the same clause: corrupted / truncated chunk streams (with and without
+		// external files) fed to the real transport.Chunk must not be finalized
+		Stage{Engine: "snapcheck", Mode: "chunks", BatchesQ: 16, BatchesT: 32, Par: 16, TimeoutQ: 900, TimeoutT: 3600})
 	// C15: chunk transfer reassembles exactly or rejects
 	addStages("C15", "exploration",
 		[]string{
